@@ -526,7 +526,19 @@ func (p *Prog) checkReadLoop(f *Func, fs *ast.ForStmt, connObj types.Object) []s
 		}
 	}
 	sl, ok := unparen(rc.Args[0]).(*ast.SliceExpr)
-	if !ok || sl.Low == nil || sl.High == nil {
+	wholeForm := false
+	if ok && sl.Low != nil && sl.High == nil {
+		// x[read:] read until read == len(x): the same region as x[read:len(x)]
+		if c, isC := unparen(cond.Y).(*ast.CallExpr); isC && p.CalleeName(c) == "builtin.len" && len(c.Args) == 1 && p.Canon(c.Args[0]) == p.Canon(sl.X) {
+			wholeForm = true
+			if p.Canon(sl.Low) != p.Canon(counter) {
+				problems = append(problems, "Read target does not start at the bytes-read counter: earlier bytes are overwritten")
+			}
+		}
+	}
+	if wholeForm {
+		// checked above
+	} else if !ok || sl.Low == nil || sl.High == nil {
 		problems = append(problems, "Read target is not x[read:wanted]")
 	} else {
 		if p.Canon(sl.Low) != p.Canon(counter) {
@@ -564,11 +576,18 @@ func (p *Prog) checkReadLoop(f *Func, fs *ast.ForStmt, connObj types.Object) []s
 	retOK := false
 	ast.Inspect(fs.Body, func(n ast.Node) bool {
 		if is, ok := n.(*ast.IfStmt); ok {
-			for _, s := range is.Body.List {
-				if _, ok := s.(*ast.ReturnStmt); ok {
+			ast.Inspect(is.Body, func(y ast.Node) bool {
+				switch z := y.(type) {
+				case *ast.ReturnStmt:
 					retOK = true
+				case *ast.BranchStmt:
+					// leaving through a label outside the loop (an inlined helper's return)
+					if z.Tok == token.BREAK && z.Label != nil {
+						retOK = true
+					}
 				}
-			}
+				return true
+			})
 		}
 		return true
 	})
@@ -702,6 +721,10 @@ func checkReadStreamingPacket(p *Prog, r *Report, rd *Func, hdr *big.Int) {
 					ok2 := false
 					if sl.High != nil {
 						hi, ok2 = p.constBig(sl.High)
+					}
+					if sl.High == nil && ok1 {
+						// header[read:]: bounded by the buffer's constant length itself
+						hi, ok2 = sz, true
 					}
 					r.Check(ok1 && ok2 && hi.Cmp(sz) <= 0, "readStreamingPacket: slice of header buffer", pos, "constant bound within constant size", "header buffer slice bound is not a constant within the buffer's constant size")
 				}
